@@ -23,6 +23,11 @@ type c33Case struct {
 	Cfg  simx.ChainCfg `json:"cfg"`
 	Ops  []simx.MemOp  `json:"ops"`
 	Full bool          `json:"full"` // also run inside a real simulation.Simulation (DB tracer)
+	// back-pressure family: how the requester retrieves responses (see
+	// slowdriver.go), and whether only the singleton observer sets and the
+	// complete one are run
+	Slow string `json:"slow,omitempty"`
+	Few  bool   `json:"few,omitempty"`
 }
 
 // light observers, one bit each
@@ -88,7 +93,7 @@ func runObserved(cs c33Case, envKind string, mask int) fingerprint {
 	case "full-db":
 		env = simx.NewFullWith(simulation.MakeBuilder().WithVisTracingOnStart().WithoutSourceRecording())
 	}
-	ch := buildChainIn(env, cs.Cfg, cloneOps(cs.Ops))
+	ch := buildChainSlow(env, cs.Cfg, cloneOps(cs.Ops), cs.Slow)
 	defer env.Close()
 
 	var tlog *[]traceEvent
@@ -224,6 +229,13 @@ func diffFingerprints(a, b fingerprint) map[string]string {
 	return d
 }
 
+func slowLabel(slow string) string {
+	if slow == "" {
+		return ""
+	}
+	return " [requester retrieves " + slow + "]"
+}
+
 func clipS(s string) string {
 	if len(s) > 120 {
 		return s[:120] + "…"
@@ -234,6 +246,9 @@ func clipS(s string) string {
 func runC33(cs c33Case) (string, []lib.Problem) {
 	bare := runObserved(cs, "light", 0)
 	sig := fmt.Sprintf("%v+%s", cs.Cfg.Stages, cs.Cfg.Memory)
+	if cs.Slow != "" {
+		sig += " requester-" + cs.Slow
+	}
 	var probs []lib.Problem
 	seen := map[string]bool{}
 	report := func(label string, d map[string]string) {
@@ -245,7 +260,7 @@ func runC33(cs c33Case) (string, []lib.Problem) {
 			seen[clause] = true
 			probs = append(probs, lib.Problem{
 				Key:  "observe:" + clause + ":" + label,
-				What: fmt.Sprintf("%s script %s under {%s}: %s", cs.Cfg.Name(), scriptString(cs.Ops), label, what),
+				What: fmt.Sprintf("%s%s script %s under {%s}: %s", cs.Cfg.Name(), slowLabel(cs.Slow), scriptString(cs.Ops), label, what),
 			})
 		}
 	}
@@ -255,6 +270,9 @@ func runC33(cs c33Case) (string, []lib.Problem) {
 	}
 	if !cs.Full {
 		for _, m := range lightSubsets() {
+			if cs.Few && bits.OnesCount(uint(m)) != 1 && m != obsLightAll {
+				continue
+			}
 			report(obsLabel(m), diffFingerprints(bare, runObserved(cs, "light", m)))
 			runs++
 			if len(probs) > 0 {
@@ -357,6 +375,26 @@ func enumC33(c *lib.Ctx, yield func(c33Case) bool) {
 			}
 		}
 	}
+	// back-pressure family: tight port buffers, eager issue, bursts of 5
+	// operations and requesters that leave responses in their port, so that
+	// ports fill up, connections go to sleep on a full destination and a
+	// retrieval has to wake them up again
+	lines2 := simx.SameSetLines(2)
+	burstAlpha := []simx.MemOp{{Addr: lines2[0], Size: 4}, {Write: true, Addr: lines2[0], Size: 4}, {Addr: lines2[1], Size: 4}}
+	for _, st := range [][]string{{}, {"rob"}, {"wb"}, {"wt-through"}} {
+		for _, m := range []string{"ideal", "banked2"} {
+			for _, buf := range []int{1, 2} {
+				for _, slow := range []string{"", "every4", "hold12"} {
+					cfg := simx.ChainCfg{Stages: st, Memory: m, NumMem: 1, PortBuf: buf, Lat: 1, MSHR: 2, Eager: true}
+					if !enumScripts(burstAlpha, 5, func(ops []simx.MemOp) bool {
+						return yield(c33Case{Cfg: cfg, Ops: ops, Slow: slow, Few: !c.Thorough()})
+					}) {
+						return
+					}
+				}
+			}
+		}
+	}
 	// inside a real simulation (DB tracer idle / recording from the start): k = 2 over 2 lines
 	fullCfgs := []simx.ChainCfg{
 		{Stages: []string{"wb"}, Memory: "ideal", NumMem: 1, PortBuf: 4, Lat: 1, MSHR: 2, Eager: true},
@@ -382,7 +420,7 @@ func init() {
 	lib.Register(&lib.Check{
 		ID:    "C33",
 		Level: "exploration",
-		Rule: "differential small-scope simulation on the real components: assemblies = 12 stage stacks {none, rob, wb, wt-around/evict/through, wt-*>wb, rob>wb, rob>wt-through>wb, wb>wb} x memories {ideal, banked2 [thorough +banked1]} x {1, 2 interleaved controllers} x (port buffer, latency, MSHR, issue) settings {(1,0,1,serial), (4,1,2,eager)} [thorough: 3 settings x {serial, eager}], plus 5 DRAM presets x {none, wb}; scripts = every sequence of k=2 operations over {read4@0, read4@8, read line, write line, write4@0, write4@8, masked line write} x 2 [3] same-set lines on every assembly, and k=3 (5 of the 7 operations x 2 lines) on the eager wb and wt-through>wb assemblies over ideal memory [thorough: all 7 operations, every eager cache-bearing assembly over one ideal memory]. " +
+		Rule: "differential small-scope simulation on the real components: assemblies = 12 stage stacks {none, rob, wb, wt-around/evict/through, wt-*>wb, rob>wb, rob>wt-through>wb, wb>wb} x memories {ideal, banked2 [thorough +banked1]} x {1, 2 interleaved controllers} x (port buffer, latency, MSHR, issue) settings {(1,0,1,serial), (4,1,2,eager)} [thorough: 3 settings x {serial, eager}], plus 5 DRAM presets x {none, wb}; scripts = every sequence of k=2 operations over {read4@0, read4@8, read line, write line, write4@0, write4@8, masked line write} x 2 [3] same-set lines on every assembly, and k=3 (5 of the 7 operations x 2 lines) on the eager wb and wt-through>wb assemblies over ideal memory [thorough: all 7 operations, every eager cache-bearing assembly over one ideal memory]; back-pressure family: stacks {none, rob, wb, wt-through} x {ideal, banked2} x port buffer {1,2}, eager issue, x requester {takes responses at once, only every 4th tick, none before tick 12} x every burst of k=5 operations over {read4 line A, write4 line A, read4 line B} (243), under the 5 singleton observer sets and the complete one [thorough: all 31]. " +
 			"Each (assembly, script) is run bare and under EVERY non-empty subset of {recording tracer on every component, incoming+outgoing buffer tracing on every port, engine Before/AfterEvent hook, counting hook on every port, counting hook on every queueing.Buffer reachable in component state} (31 subsets); on 3 [7] assemblies x k=2 over 2 lines also inside a real simulation.Simulation with its DB tracer idle and recording from the start, alone and together with the other observers. " +
 			"Oracle: the fingerprint (per response in arrival order: op, kind, data bytes, simulated completion time; number of responses; final bytes of every backing storage over the touched range; final simulated time; run failure text) equals that of the bare run; generated IDs are not compared. A case = (assembly, script); observed_runs counts the runs.",
 		Sharded:     true,
